@@ -35,7 +35,8 @@ func randBundleURL(r *Rng) string {
 			}
 			u += "/" + string(alnumBytes(r, r.Intn(6)))
 			if r.Chance(1, 3) {
-				u += []string{"/x%20y", "/a;b=c", "/~u/", "/%E3%81%82", "/a:b", "/a@b"}[r.Intn(6)]
+				// incl. escapes that are not net/url's default spelling (kept in RawPath): %7E, %2F, lower-case hex, %41
+				u += []string{"/x%20y", "/a;b=c", "/~u/", "/%E3%81%82", "/a:b", "/a@b", "/%7Eu/", "/a%2Fb", "/caf%c3%a9", "/p%41", "/%7e%2f"}[r.Intn(11)]
 			}
 			if r.Chance(1, 3) {
 				u += []string{"?q=1", "?a=b&c=d", "?", "?x=%zz"}[r.Intn(4)]
@@ -361,6 +362,10 @@ func genC04(r *Rng, tier string) []Case {
 		in := bundleInSx(b)
 		cs = append(cs, Case{"bundle_write", []Sx{in, Sym("buffer")}})
 		cs = append(cs, Case{"bundle_write", []Sx{in, Sym("plain")}})
+	}
+	// version names: only "b1" and "b2", as spelled
+	for _, v := range []string{"b1", "b2", "B1", "B2", "b3", "b0", "", "b", "b1 ", " b1", "b1\x00", "1", "2", "b11", "bb1", "b２", "ｂ1"} {
+		cs = append(cs, Case{"bver_parse", []Sx{B([]byte(v))}})
 	}
 	// URL model vs net/url (feeds the reader/writer domain)
 	for _, u := range []string{"https://a.test/", "https://a.test", "/x", "x", "x:y", "a/b:c", "//h/p", "///p", "https://h/p#", "https://h/p#f", "https://u@h/", "https://h/%zz", "x#%zz",
